@@ -6,7 +6,9 @@ and the observation mapper agree on them without a table.
 """
 import idl
 
-FILE_LETTERS = "abcdefgh"
+# no file is called c.thrift: a Go package `c` collides with the parameter `c thrift.TClient` of generated client
+# constructors when a service extends a service of that file (thriftgo code generation, not trimming)
+FILE_LETTERS = "abkdefgh"
 PREFIX = {"struct": "X", "union": "U", "exception": "Z", "enum": "E", "typedef": "T", "const": "C", "service": "S"}
 
 
